@@ -20,7 +20,9 @@ theorem const_chunk_types :
 
 /-! ### the disconnect reason: first reason wins -/
 
-/-- **reason_first_wins_step**: no action of any actor, in any state, changes a reason once it is set. -/
+/-- **reason_first_wins_step**: no action of any actor, in any state, changes a reason once it is set.
+(The model's check-and-set is one step; so is the code's since fix 3b14b84 — `close_with_reason` used
+`borrow().is_none()` … `send()` before.) -/
 theorem reason_first_wins_step (s : St) (a : Act) (r : Reason) (h : s.reason = some r) :
     (step s a).reason = some r := by
   unfold step
@@ -38,49 +40,99 @@ theorem reason_first_wins (s : St) (as : List Act) (r : Reason) (h : s.reason = 
     simp only [run, List.foldl_cons]
     exact ih (step s a) (reason_first_wins_step s a r h)
 
-/-- `close()` always leaves a reason behind: the first block of `close_with_reason` sets one unless one is
-already there (a connection that is already `Closed` got its reason from whoever closed it), and then —
-first wins — it survives every later schedule. -/
-theorem close_sets_reason (s : St) (arg : Reason) (as : List Act) (hen : enabled s (.callClose arg) = true)
-    (hinv : s.peer = .closed → s.reason.isSome = true) :
-    (run (step s (.callClose arg)) as).reason.isSome = true := by
-  have h1 : (step s (.callClose arg)).reason.isSome = true := by
-    simp only [step, hen, if_true, apply]
-    unfold closeA
-    split
-    · rename_i hc; simpa using hinv hc
-    · simp [setReasonIfNone_isSome]
-  cases hr : (step s (.callClose arg)).reason with
-  | none => simp [hr] at h1
-  | some r => simp [reason_first_wins _ as r hr]
+/-! ### `Closed` is final (fix 0e0d29e) -/
+
+/-- **closed_is_final**: once `peer_state` is `Closed` (and signaling `Closed`), no action of any actor
+along any schedule changes either — in particular not the driving loop finishing a transport start
+(`Connected`), a DTLS start failure (`Failed`) or a late DTLS / ICE event (`Disconnected`). -/
+theorem closed_is_final (s : St) (as : List Act) (hp : s.peer = .closed) :
+    (run s as).peer = .closed ∧ (s.sig = .closed → (run s as).sig = .closed) := by
+  induction as generalizing s with
+  | nil => exact ⟨hp, id⟩
+  | cons a rest ih =>
+    simp only [run, List.foldl_cons]
+    have h1 : (step s a).peer = .closed := by
+      unfold step; split
+      · exact apply_peer_closed s a hp
+      · exact hp
+    have h2 : s.sig = .closed → (step s a).sig = .closed := by
+      intro hs; unfold step; split
+      · exact apply_sig_closed s a hs
+      · exact hs
+    exact ⟨(ih (step s a) h1).1, fun hs => (ih (step s a) h1).2 (h2 hs)⟩
+
+/-- **close_reaches_terminal** — the `close()` half of `reaches_terminal_with_reason`, at full strength:
+in **every** state (every phase, every component state, any in-flight activity) in which `close()` can be
+called, and along **every** later schedule of all actors (the remaining blocks of this close, the driving
+loop, the SCTP runner, the DTLS task, the environment, further closes and drops), the connection is
+`Closed` with signaling `Closed` and a reason, `wait_for_connected`, `create_offer` and
+`set_remote_description(offer)` fail at once, and the reason never changes.
+(False before fixes 0e0d29e / f59957e: see the superseded witnesses at the end of this file.) -/
+theorem close_reaches_terminal (s : St) (arg : Reason) (as : List Act)
+    (hen : enabled s (.callClose arg) = true)
+    (hinv : s.peer = .closed → s.sig = .closed ∧ s.reason.isSome = true) :
+    let t := run (step s (.callClose arg)) as
+    t.peer = .closed ∧ t.sig = .closed ∧ terminal t = true ∧
+    call t .waitForConnected = .errNow ∧ call t .createOffer = .errNow ∧ call t .setRemoteOffer = .errNow ∧
+    (∀ r, (step s (.callClose arg)).reason = some r → t.reason = some r) := by
+  have hA : step s (.callClose arg) = closeA s arg := by simp [step, hen, apply]
+  have h1 : (closeA s arg).peer = .closed := by
+    by_cases hc : s.peer = .closed <;> simp [closeA, hc]
+  have h2 : (closeA s arg).sig = .closed := by
+    by_cases hc : s.peer = .closed
+    · simp [closeA, hc, (hinv hc).1]
+    · simp [closeA, hc]
+  have h3 : (closeA s arg).reason.isSome = true := by
+    by_cases hc : s.peer = .closed
+    · simp [closeA, hc, (hinv hc).2]
+    · simp [closeA, hc, setReasonIfNone_isSome]
+  obtain ⟨r, hr⟩ : ∃ r, (closeA s arg).reason = some r := by
+    cases h : (closeA s arg).reason with
+    | none => simp [h] at h3
+    | some r => exact ⟨r, rfl⟩
+  simp only [hA]
+  have hf := closed_is_final (closeA s arg) as h1
+  have hr' := reason_first_wins (closeA s arg) as r hr
+  refine ⟨hf.1, hf.2 h2, ?_, ?_, ?_, ?_, ?_⟩
+  · rw [terminal_iff]; exact ⟨Or.inr (Or.inr hf.1), r, hr'⟩
+  · simp [call, hf.1]
+  · simp [call, hf.2 h2]
+  · simp [call, hf.2 h2]
+  · intro r2 h; rw [hr] at h; cases h; exact hr'
+
+example : enabled (phaseState .webrtc true 2 .dtlsHandshaking) (.callClose .localClose) = true := by decide
 
 /-! ### data channels: Close exactly once -/
 
-/-- every action leaves the channel list alone or runs the close-once step over it -/
-theorem chans_step (s : St) (a : Act) : ChansStep s.chans (step s a).chans := by
+/-- every action except the raw `close_data_channel` leaves the channel list alone or runs the close-once
+step over it -/
+theorem chans_step (s : St) (a : Act) (hne : ∀ i, a ≠ .closeChannel i) : ChansStep s.chans (step s a).chans := by
   unfold step
   split
-  · exact apply_chans s a
+  · exact apply_chans s a hne
   · exact .refl _
 
-/-- a channel is either open with no Close delivered, or closed with exactly one -/
-def ChanOk (c : Chan) : Prop := (c.closed = false ∧ c.events = 0) ∨ (c.closed = true ∧ c.events = 1)
+/-- a channel is either open with no Close delivered, or closed with exactly one and its sender dropped -/
+def ChanOk (c : Chan) : Prop :=
+  (c.closed = false ∧ c.events = 0 ∧ c.senderDropped = false) ∨ (c.closed = true ∧ c.events = 1 ∧ c.senderDropped = true)
 
 theorem closeChan_ok (c : Chan) (h : ChanOk c) : ChanOk (closeChan c) ∧ (closeChan c).closed = true := by
   unfold closeChan
-  rcases h with ⟨h1, h2⟩ | ⟨h1, h2⟩ <;> simp [h1, h2, ChanOk]
+  rcases h with ⟨h1, h2, h3⟩ | ⟨h1, h2, h3⟩ <;> simp [h1, h2, h3, ChanOk]
 
-/-- **channel_close_exactly_once** (safety half, all schedules): along every schedule from a state whose
-channels are consistent, every channel has seen `Close` at most once, and exactly once iff it is closed;
-a closed channel is never reopened and the number of channels never changes. -/
-theorem channel_close_exactly_once (s : St) (as : List Act) (h : ∀ c ∈ s.chans, ChanOk c) :
+/-- **channel_close_exactly_once** (safety half): along every schedule that does not use the raw
+`SctpTransport::close_data_channel` (it is not reachable through `PeerConnection`; see the witnesses below for
+what it does), every channel has seen `Close` at most once, exactly once iff it is closed — and then a
+pending `recv()` returns —, a closed channel is never reopened, the number of channels never changes. -/
+theorem channel_close_exactly_once (s : St) (as : List Act) (h : ∀ c ∈ s.chans, ChanOk c)
+    (hne : ∀ a ∈ as, ∀ i, a ≠ .closeChannel i) :
     (run s as).chans.length = s.chans.length ∧
     (∀ c ∈ (run s as).chans, ChanOk c) ∧
     (∀ i : Nat, (s.chans[i]?).map (fun c : Chan => c.closed) = some true → ((run s as).chans[i]?).map (fun c : Chan => c.closed) = some true) := by
   induction as generalizing s with
   | nil => exact ⟨rfl, h, fun _ hh => hh⟩
   | cons a rest ih =>
-    have hs := chans_step s a
+    have hs := chans_step s a (hne a (by simp))
     have hok : ∀ c ∈ (step s a).chans, ChanOk c := by
       rcases hs with e | e
       · rw [e]; exact h
@@ -100,33 +152,47 @@ theorem channel_close_exactly_once (s : St) (as : List Act) (h : ∀ c ∈ s.cha
         | some c =>
           simp only [hci, Option.map_some, Option.some.injEq] at hi
           simp [List.getElem?_map, hci, closeChan, hi]
-    obtain ⟨l, o, m⟩ := ih (step s a) hok
+    obtain ⟨l, o, m⟩ := ih (step s a) hok (fun b hb => hne b (by simp [hb]))
     simp only [run, List.foldl_cons] at *
     exact ⟨l.trans hlen, o, fun i hi => m i (hmono i hi)⟩
 
 example : ∀ c ∈ (base .webrtc true 3).chans, ChanOk c := by
-  intro c hc; simp [base] at hc; subst hc; left; exact ⟨rfl, rfl⟩
+  intro c hc; simp [base] at hc; subst hc; left; exact ⟨rfl, rfl, rfl⟩
 
 /-- **channel_close_on_close** (liveness half for `close()`): once block B of `close_with_reason` has run
-— in any state, SCTP association or not — every channel is closed and has seen exactly one `Close`, and
-that stays so along every later schedule. (False before fix 78635d3 for channels without an association.) -/
-theorem channel_close_on_close (s : St) (as : List Act) (h : ∀ c ∈ s.chans, ChanOk c) :
-    ∀ c ∈ (run (closeB s) as).chans, c.closed = true ∧ c.events = 1 := by
+— in any state, SCTP association or not — every channel is closed, has seen exactly one `Close` and its
+sender is dropped, and that stays so along every later schedule. -/
+theorem channel_close_on_close (s : St) (as : List Act) (h : ∀ c ∈ s.chans, ChanOk c)
+    (hne : ∀ a ∈ as, ∀ i, a ≠ .closeChannel i) :
+    ∀ c ∈ (run (closeB s) as).chans, c.closed = true ∧ c.events = 1 ∧ c.senderDropped = true := by
   have hB : ∀ c ∈ (closeB s).chans, ChanOk c ∧ c.closed = true := by
     intro c hc
     simp only [closeB_chans, List.mem_map] at hc
     obtain ⟨c0, hc0, rfl⟩ := hc
     exact closeChan_ok c0 (h c0 hc0)
-  obtain ⟨hl, hok, hm⟩ := channel_close_exactly_once (closeB s) as (fun c hc => (hB c hc).1)
+  obtain ⟨hl, hok, hm⟩ := channel_close_exactly_once (closeB s) as (fun c hc => (hB c hc).1) hne
   intro c hc
   obtain ⟨i, hi, rfl⟩ := List.mem_iff_getElem.mp hc
   have hi' : i < (closeB s).chans.length := by omega
   have hc0 := hB ((closeB s).chans[i]) (List.getElem_mem hi')
   have := hm i (by simp [List.getElem?_eq_getElem hi', hc0.2])
   simp [List.getElem?_eq_getElem hi] at this
-  rcases hok _ (List.getElem_mem hi) with ⟨h1, _⟩ | ⟨h1, h2⟩
+  rcases hok _ (List.getElem_mem hi) with ⟨h1, _⟩ | ⟨h1, h2, h3⟩
   · simp [h1] at this
-  · exact ⟨h1, h2⟩
+  · exact ⟨h1, h2, h3⟩
+
+/-- **Witness (known finding `chan:…closeChannelTwice…`)**: the third Close emitter,
+`SctpInner::close_data_channel`, is unguarded: calling it twice delivers `Close` twice. -/
+theorem close_data_channel_twice_witness :
+    (run (connectedSt .webrtc true 1) [.closeChannel 0, .closeChannel 0]).chans = [⟨true, 2, false⟩] := by decide
+
+/-- **Witness (known finding `hang:…closeChannel+close…`)**: after `close_data_channel` the channel is
+`Closed` with its sender still alive, so the teardown paths skip it: even after a complete `close()` a
+pending `DataChannel::recv()` never returns. -/
+theorem close_data_channel_then_close_recv_hangs_witness :
+    let t := run (connectedSt .webrtc true 1)
+      [.closeChannel 0, .callClose .localClose, .closeStep, .closeStep, .sctpClose, .dtlsExit, .drvIce]
+    quiescent t = true ∧ t.peer = .closed ∧ call t (.dcRecv 0) = .pending := by decide
 
 /-! ### close is idempotent -/
 
@@ -163,16 +229,29 @@ theorem closeSeq_result (s : St) (arg : Reason) (hp : s.peer ≠ .closed) (hc : 
   · simp [closeC]
   · simp [closeC, closeB, closeA, hp, setReasonIfNone_isSome]
   · simp [closeC]
-  · intro c hc'
-    simp only [closeC_chans, closeB_chans, closeA_chans, List.mem_map] at hc'
-    obtain ⟨c0, _, rfl⟩ := hc'
-    unfold closeChan; split <;> simp_all
+  · have hBc : ∀ c ∈ (closeB (closeA s arg)).chans, c.closed = true := by
+      intro c hc'
+      simp only [closeB_chans, closeA_chans, List.mem_map] at hc'
+      obtain ⟨c0, _, rfl⟩ := hc'
+      unfold closeChan; split <;> simp_all
+    exact (closeC_chans_step _).all_closed hBc
 
-/-- closing twice in a row: the second call is a no-op -/
-theorem close_twice (s : St) (a1 a2 : Reason) (hp : s.peer ≠ .closed) (hc : s.close = .none) :
-    closeSeq (closeSeq s a1) a2 = closeSeq s a1 := by
-  obtain ⟨h1, _, _, h4, _⟩ := closeSeq_result s a1 hp hc
-  exact close_idempotent _ a2 h1 h4
+/-- **close_concurrent**: a second `close()` issued while the first is still between its blocks — the
+case a sequential model cannot express — is the `Closed` early return: model it as block A run on the
+in-flight state. It changes no observable field (only the bookkeeping of which call finishes), so two
+concurrent closes equal one. -/
+theorem close_concurrent (s : St) (a1 a2 : Reason) (hp : s.peer ≠ .closed) :
+    let t := closeA s a1
+    (closeA t a2).peer = t.peer ∧ (closeA t a2).sig = t.sig ∧ (closeA t a2).reason = t.reason ∧
+    (closeA t a2).chans = t.chans ∧ (closeA t a2).held = t.held ∧ (closeA t a2).ice = t.ice ∧
+    (closeA (closeB t) a2).chans = (closeB t).chans ∧ (closeA (closeB t) a2).reason = (closeB t).reason := by
+  have key : ∀ t : St, t.peer = .closed → closeA t a2 = { t with close := .finished } := by
+    intro t ht; simp [closeA, ht]
+  have h1 : (closeA s a1).peer = .closed := by simp [closeA, hp]
+  have h2 : (closeB (closeA s a1)).peer = .closed := by simp [closeB, h1]
+  intro t
+  rw [key t h1, key (closeB t) h2]
+  exact ⟨rfl, rfl, rfl, rfl, rfl, rfl, rfl, rfl⟩
 
 /-- the driving loop's / `Drop`'s uninterleaved teardown is idempotent too -/
 theorem teardown_idempotent (s : St) (a b : Reason) : teardown (teardown s a) b = teardown s a := by
@@ -182,29 +261,42 @@ theorem teardown_idempotent (s : St) (a b : Reason) : teardown (teardown s a) b 
 
 /-! ### calls fail fast after close -/
 
-/-- **calls_fail_fast_after_close**: in every state in which `close()` has completed, `send_data`,
+/-- **calls_fail_fast_after_close**: in every state in which a `close()` has completed, `send_data`,
 `create_offer`, `set_remote_description(offer)` and `wait_for_connected` return an error at once,
-`create_data_channel` does not block, and a pending `DataChannel::recv` on any channel returns. -/
-theorem calls_fail_fast_after_close (s : St) (arg : Reason) (hp : s.peer ≠ .closed) (hc : s.close = .none) :
+`create_data_channel` does not block, and a pending `DataChannel::recv` on any channel returns.
+(`wait_for_connected`, `create_offer`, `set_remote_description` already after block A and for every
+schedule: `close_reaches_terminal`.) -/
+theorem calls_fail_fast_after_close (s : St) (arg : Reason) (hp : s.peer ≠ .closed) (hc : s.close = .none)
+    (hch : ∀ c ∈ s.chans, ChanOk c) :
     let t := closeSeq s arg
     call t .sendData = .errNow ∧ call t .createOffer = .errNow ∧ call t .setRemoteOffer = .errNow ∧
     call t .waitForConnected = .errNow ∧ call t .createDataChannel ≠ .pending ∧
     ∀ i, call t (.dcRecv i) ≠ .pending := by
-  obtain ⟨h1, h2, h3, _, _, _, h7⟩ := closeSeq_result s arg hp hc
+  obtain ⟨h1, h2, h3, _, _, _, _⟩ := closeSeq_result s arg hp hc
   refine ⟨by simp [call, h3], by simp [call, h2], by simp [call, h2], by simp [call, h1], by simp [call], ?_⟩
   intro i
+  have hA : step s (.callClose arg) = closeA s arg := by simp [step, enabled, hc, apply]
+  have hAc : (closeA s arg).close = .a := by simp [closeA, hp]
+  have hB : step (closeA s arg) .closeStep = closeB (closeA s arg) := by simp [step, enabled, hAc, apply]
+  have hrun : closeSeq s arg = run (closeB (closeA s arg)) [.closeStep] := by
+    simp [closeSeq, run, hA, hB]
+  have := channel_close_on_close (closeA s arg) [.closeStep] (by simpa using hch) (by simp)
+  rw [← hrun] at this
   simp only [call]
   cases hi : (closeSeq s arg).chans[i]? with
   | none => simp
   | some c =>
-    have := h7 c (List.mem_of_getElem? hi)
-    simp [this]
+    have := this c (List.mem_of_getElem? hi)
+    simp [this.2.2]
 
-/-- before fix 78635d3 the last clause failed for channels that never had an SCTP association; the model
-of the guard alone (`sctpEnd`) shows why: without an association nothing maps over the channels -/
-example : (closeC (closeB (closeA (base .webrtc true 1) .localClose))).chans = [⟨true, 1⟩] := by decide
+/-- after a lower-layer end (no `close()`): `wait_for_connected` no longer hangs in
+`Disconnected` + reason (fix 3448715) — in every terminal state it answers at once -/
+theorem wait_for_connected_answers_when_terminal (s : St) (h : terminal s = true) :
+    call s .waitForConnected = .errNow := by
+  obtain ⟨hp, r, hr⟩ := (terminal_iff s).mp h
+  rcases hp with h | h | h <;> simp [call, h, hr]
 
-/-! ### terminal state -/
+/-! ### terminal state: all schedules -/
 
 /-- **terminal_stable_after_driver_exit**: once the driving loop has exited in a terminal state, *no*
 action of any actor — including ICE recovery, late packets, further `close()` calls — takes the connection
@@ -218,8 +310,135 @@ theorem terminal_stable_after_driver_exit (s : St) (as : List Act) (ht : termina
     have key := step_done_terminal s a ht hd
     exact ih (step s a) key.1 key.2
 
-example : terminal (run (connectedSt .webrtc true 2) [.peerCloseNotify, .drvDtls]) = true ∧
-    (run (connectedSt .webrtc true 2) [.peerCloseNotify, .drvDtls]).drv = .done := by decide
+/-- every channel saw exactly one Close and lost its sender, and no `send_data` is left parked -/
+def chansDone (s : St) : Bool := s.chans.all (fun c => c.closed && c.events == 1 && c.senderDropped) && s.blocked == 0
+
+/-- what a settled state must look like: quiescent states (no action of the implementation's own tasks
+enabled) are terminal — unless a DTLS handshake is still waiting for the network (its 30 s timer is
+environment) — and, when asked, every channel has seen exactly one Close -/
+def okState (needChans : Bool) (s : St) : Bool :=
+  !quiescent s || s.dtls == .handshaking || (terminal s && (!needChans || chansDone s))
+
+/-- certificate check: the closure of `{s1}` under `acts` is closed and all its members satisfy `ok` -/
+def certified (ok : St → Bool) (acts : List Act) (n : Nat) (s1 : St) : Bool :=
+  let V := closure acts n [s1]
+  V.contains s1 && closedUnder acts V && V.all ok
+
+/-- soundness of the certificate: the end state of **every** schedule over `acts` from `s1` satisfies `ok` -/
+theorem certified_sound (ok : St → Bool) (acts : List Act) (n : Nat) (s1 : St)
+    (h : certified ok acts n s1 = true) (as : List Act) (has : ∀ a ∈ as, a ∈ acts) :
+    ok (run s1 as) = true := by
+  simp only [certified, Bool.and_eq_true] at h
+  obtain ⟨⟨h0, hcl⟩, hall⟩ := h
+  have hm := closedUnder_sound acts _ hcl s1 (by simpa using h0) as has
+  rw [List.all_eq_true] at hall
+  exact hall _ hm
+
+def settledOK (acts : List Act) (needChans : Bool) (n : Nat) (s1 : St) : Bool :=
+  certified (okState needChans) acts n s1
+
+theorem settledOK_sound (acts : List Act) (needChans : Bool) (n : Nat) (s1 : St)
+    (h : settledOK acts needChans n s1 = true) (as : List Act) (has : ∀ a ∈ as, a ∈ acts) :
+    okState needChans (run s1 as) = true := certified_sound _ acts n s1 h as has
+
+/-- connection-progress actions of the environment that may race an event -/
+def progressActs : List Act := [.iceConnect, .dtlsConnect, .roleSet, .descsSet]
+
+/-- the terminating events of the property (application and lower layers) -/
+def terminatingEvents : List Act :=
+  [.callClose .localClose, .appDrop, .peerCloseNotify, .peerAbort, .peerShutdown, .peerShutdownAck, .hbTimeout,
+   .iceFail, .iceStop, .iceDisconnect, .dtlsFail]
+
+def allPhases : List Phase :=
+  [.created, .offerMade, .remoteOfferSet, .checking, .iceConnected, .dtlsHandshaking, .dtlsConnected,
+   .sctpConnecting, .channelsOpen, .mediaFlowing, .renegotiating]
+
+/-- which (mode, association) × phase combinations exist: the direct modes have no DTLS phases and no
+data-channel association -/
+def phaseExists (m : Mode) (app : Bool) (ph : Phase) : Bool :=
+  match m with
+  | .webrtc => true
+  | .direct => !app && ph != .dtlsHandshaking && ph != .dtlsConnected
+
+/-- is `e` a terminating event at this phase boundary? It must be able to occur there (`enabled`), and an
+ICE *disconnect* terminates only through the grace timer of the connected loop (before that it is transient
+ICE loss handled by the ICE layer's own failure timeout, i.e. by `iceFail`). -/
+def eventApplies (s0 : St) (e : Act) : Bool :=
+  enabled s0 e && (e != .iceDisconnect || s0.drv == .running)
+
+/-- the mode × phase × event table of certificates -/
+def phaseEventTable : List (Mode × Bool × Phase × Act) :=
+  [Mode.webrtc, Mode.direct].flatMap fun m => [true, false].flatMap fun app =>
+    (allPhases.filter (phaseExists m app)).flatMap fun ph =>
+      (terminatingEvents.filter (eventApplies (phaseState m app 1 ph))).map fun e => (m, app, ph, e)
+
+set_option maxRecDepth 1000000 in
+/-- **reaches_terminal_with_reason** — full statement, all schedules: for every transport mode, with or
+without a data-channel association, at **every phase boundary**, for **every terminating event** that can
+occur there (`close()`, drop, peer close_notify, SCTP ABORT / SHUTDOWN / SHUTDOWN-ACK / heartbeat timeout,
+ICE failure / stop / disconnect, DTLS failure): the certificate holds, i.e. (by `settledOK_sound`) **every
+schedule** of the implementation's own tasks *and* of racing connection progress (ICE connecting, DTLS
+completing, role / descriptions arriving) that ends quiescent ends terminal — peer state in
+{Disconnected, Failed, Closed} with a reason. (False before the round-2 fixes: witnesses below.) -/
+theorem reaches_terminal_with_reason :
+    phaseEventTable.all (fun (m, app, ph, e) =>
+      settledOK (internalActs ++ progressActs) false 40 (step (phaseState m app 1 ph) e)) = true := by
+  decide +kernel
+
+/-- the statement in the usual form, from the table and the soundness lemma -/
+theorem reaches_terminal_with_reason_all_schedules (m : Mode) (app : Bool) (ph : Phase) (e : Act)
+    (hmem : (m, app, ph, e) ∈ phaseEventTable) (as : List Act)
+    (has : ∀ a ∈ as, a ∈ internalActs ++ progressActs)
+    (hq : quiescent (run (step (phaseState m app 1 ph) e) as) = true)
+    (hd : (run (step (phaseState m app 1 ph) e) as).dtls ≠ .handshaking) :
+    terminal (run (step (phaseState m app 1 ph) e) as) = true := by
+  have htab := reaches_terminal_with_reason
+  rw [List.all_eq_true] at htab
+  have h1 := htab _ hmem
+  have h2 := settledOK_sound _ false 40 _ h1 as has
+  simp only [okState, hq, Bool.not_true, Bool.false_or, Bool.or_eq_true, Bool.and_eq_true] at h2
+  rcases h2 with h2 | h2
+  · exact absurd (by simpa using h2) hd
+  · exact h2.1
+
+example : (Mode.webrtc, true, Phase.dtlsHandshaking, Act.callClose .localClose) ∈ phaseEventTable := by decide
+
+set_option maxRecDepth 1000000 in
+/-- **channels_closed_when_connection_ends**: from the settled connected state with an open channel,
+for every terminating event and **every schedule** of the implementation's tasks, the quiescent end state
+is terminal *and* the channel has seen exactly one `Close` and a pending `recv()` returns. -/
+theorem channels_closed_when_connection_ends :
+    (terminatingEvents.filter fun e => enabled (connectedSt .webrtc true 1) e).all (fun e =>
+      settledOK internalActs true 40 (step (connectedSt .webrtc true 1) e)) = true := by
+  decide +kernel
+
+/-- settled states after a drop: `Closed` with a reason -/
+def okDropped (s : St) : Bool :=
+  !quiescent s || s.dtls == .handshaking || (s.peer == .closed && s.reason.isSome)
+
+set_option maxRecDepth 1000000 in
+/-- **drop_reaches_closed**: dropping the last handle at any phase boundary — including while the driving
+loop is inside `start_dtls` and holds the only remaining strong handle (audit A5: the drop is then deferred,
+not lost) — ends `Closed` with a reason along every schedule of the implementation's tasks and of racing
+connection progress. -/
+theorem drop_reaches_closed :
+    ([Mode.webrtc, Mode.direct].all fun m => [true, false].all fun app => (allPhases.filter (phaseExists m app)).all fun ph =>
+      certified okDropped (internalActs ++ progressActs) 40 (step (phaseState m app 1 ph) .appDrop)) = true := by
+  decide +kernel
+
+set_option maxRecDepth 1000000 in
+/-- **all_pending_calls_released**: from the connected state with an open channel, with up to three
+`send_data` calls parking in SCTP flow control at any moment (before or after the event, as long as the
+association accepts sends), for every terminating event and **every schedule**: the quiescent end state is
+terminal, the channel has seen exactly one Close, its pending `recv()` returns, and **no send is left
+parked** (`blocked = 0`) — every terminating path drains the pending calls. (False before fix b5ed730 for
+the paths that do not go through `SctpTransport::close()`: peer ABORT / SHUTDOWN, heartbeat timeout, DTLS
+closed, ICE failed.) -/
+theorem all_pending_calls_released :
+    (terminatingEvents.filter fun e => enabled (connectedSt .webrtc true 1) e).all (fun e =>
+      settledOK (.senderBlocks :: internalActs) true 60
+        (step (run (connectedSt .webrtc true 1) [.senderBlocks, .senderBlocks]) e)) = true := by
+  decide +kernel
 
 /-- While the driving loop is still alive the lenient terminal state is **not** final: after the ICE
 disconnect grace expired (`Disconnected` + `IceDisconnected`, SCTP closed) the loop is parked at its top and
@@ -231,71 +450,29 @@ theorem terminal_not_final_while_driver_alive_witness :
   refine ⟨run (connectedSt .webrtc false 0) [.iceDisconnect, .drvIce, .drvGrace],
     [.iceRecover, .drvTop, .dtlsConnect, .drvStart], by decide, by decide, by decide⟩
 
-/-- Sequential use — the events of `DESIGN C17` injected into a settled connected state and the
-implementation's own tasks then running to quiescence in the listed order — ends terminal with the reason
-of the first event. One representative schedule per event; *all* interleavings are explored by the Lean
-driver for every harness run (stream `life`) and compared with the real connection. -/
-theorem settled_events_reach_terminal :
-    let s := connectedSt .webrtc true 1
-    (let t := run s [.callClose .localClose, .closeStep, .closeStep, .sctpClose, .dtlsExit, .drvIce];
-      quiescent t = true ∧ t.peer = .closed ∧ t.reason = some .localClose ∧ t.chans = [⟨true, 1⟩]) ∧
-    (let t := run s [.peerCloseNotify, .drvDtls]; quiescent t = true ∧ t.peer = .disconnected ∧ t.reason = some .dtlsClosed ∧ t.chans = [⟨true, 1⟩]) ∧
-    (let t := run s [.peerAbort, .drvLoops]; quiescent t = true ∧ t.peer = .disconnected ∧ t.reason = some .sctpRemoteAbort ∧ t.chans = [⟨true, 1⟩]) ∧
-    (let t := run s [.peerShutdown, .drvLoops]; quiescent t = true ∧ t.peer = .disconnected ∧ t.reason = some .sctpRemoteShutdown) ∧
-    (let t := run s [.hbTimeout, .drvLoops]; quiescent t = true ∧ t.peer = .disconnected ∧ t.reason = some .sctpHeartbeatTimeout) ∧
-    (let t := run s [.iceFail, .drvIce]; quiescent t = true ∧ t.peer = .failed ∧ t.reason = some .iceFailed ∧ t.chans = [⟨true, 1⟩]) ∧
-    (let t := run s [.iceStop, .drvIce, .sctpClose, .dtlsExit]; quiescent t = true ∧ t.peer = .closed ∧ t.sig = .closed ∧ t.reason = some .iceDisconnected) ∧
-    (let t := run s [.iceDisconnect, .drvIce, .drvGrace]; quiescent t = true ∧ t.peer = .disconnected ∧ t.reason = some .iceDisconnected) := by
-  decide
+/-! ### superseded witnesses (the code as it was before the round-2 fixes)
 
-/-- **reaches_terminal_with_reason — full statement is false in the model of the code as it is.**
-Full statement: `∀ phase schedule, quiescent (run (phaseState …) schedule) → a terminating event occurred →
-terminal`. Witness 1 (application drop while the WebRTC driving loop holds its strong handle): nothing
-happens at all — replayed on the implementation, known finding `term:webrtc/established/drop:…`. -/
-theorem reaches_terminal_drop_witness :
-    let t := run (connectedSt .webrtc true 1) [.appDrop]
-    quiescent t = true ∧ t.peer = .connected ∧ t.reason = none ∧ t.chans = [⟨false, 0⟩] := by decide
+Kept as regression examples: the schedules that used to refute `reaches_terminal_with_reason` now end
+terminal. -/
 
-/-- Witness 2 (`close()` racing the end of the DTLS handshake): block A sets `Closed`, the driving loop
-then sees DTLS `Connected` and overwrites it with `Connected`, the cleared listeners end its loop before ICE
-is stopped, and the connection is left `Connected` (reason `LocalClose`, signaling `Closed`) for good.
-(Found by the proof attempt; a narrow scheduling window — later observed on the implementation in a loaded
-run: known finding `term:*/connecting/close:connected-localClose`.) -/
-theorem reaches_terminal_close_race_witness :
+/-- was `reaches_terminal_drop_witness` (drop of a connected WebRTC connection did nothing); since the
+WebRTC loop holds the connection weakly the drop tears it down -/
+theorem drop_of_connected_webrtc_now_closes :
+    let t := run (connectedSt .webrtc true 1) [.appDrop, .dtlsExit]
+    quiescent t = true ∧ t.peer = .closed ∧ t.reason = some .dropped ∧ t.chans = [⟨true, 1, true⟩] := by decide
+
+/-- was `reaches_terminal_close_race_witness` (`close()` racing the end of the DTLS handshake left
+`Connected` for good); `Closed` is final now -/
+theorem close_race_now_stays_closed :
     let t := run (phaseState .webrtc false 0 .dtlsHandshaking)
       [.callClose .localClose, .dtlsConnect, .drvStart, .closeStep, .drvLoops, .closeStep, .dtlsExit]
-    quiescent t = true ∧ terminal t = false ∧ t.peer = .connected ∧ t.reason = some .localClose := by decide
+    quiescent t = true ∧ terminal t = true ∧ t.peer = .closed ∧ t.reason = some .localClose ∧ t.drv = .done := by decide
 
-/-- Witness 3 (`close()` during the DTLS handshake of a connection without data channels): the DTLS task
-leaves on the close notification without publishing a final state, `start_dtls` keeps waiting for one, so
-the driving loop never returns (it still holds the connection strongly): terminal state reported, tasks
-leaked — measured on the implementation, known finding `leak:webrtc-audio/connecting/close:…`. -/
-theorem close_during_handshake_driver_stuck_witness :
-    let t := run (phaseState .webrtc false 0 .dtlsHandshaking) [.callClose .localClose, .closeStep, .closeStep, .dtlsExit]
-    quiescent t = true ∧ terminal t = true ∧ t.drv = .starting := by decide
-
-/-- **reaches_terminal_with_reason_partial**: what holds for every state and every schedule —
-(1) an executed `close()` yields `Closed` + reason + signaling `Closed` at once (block A), whatever the
-phase; (2) from then on the reason never changes; (3) once the driving loop has exited in a terminal state
-the state stays terminal under every action of every actor. -/
-theorem reaches_terminal_with_reason_partial (s : St) (arg : Reason) (hen : enabled s (.callClose arg) = true)
-    (hp : s.peer ≠ .closed) :
-    let t := step s (.callClose arg)
-    t.peer = .closed ∧ t.sig = .closed ∧ terminal t = true ∧
-    (∀ as r, t.reason = some r → (run t as).reason = some r) ∧
-    (t.drv = .done → ∀ as, terminal (run t as) = true) := by
-  have ht : step s (.callClose arg) = closeA s arg := by simp [step, hen, apply]
-  simp only [ht]
-  have h1 : (closeA s arg).peer = .closed := by simp [closeA, hp]
-  have h2 : (closeA s arg).sig = .closed := by simp [closeA, hp]
-  have h3 : terminal (closeA s arg) = true := by
-    rw [terminal_iff]
-    refine ⟨Or.inr (Or.inr h1), ?_⟩
-    have : (closeA s arg).reason.isSome = true := by simp [closeA, hp, setReasonIfNone_isSome]
-    cases h : (closeA s arg).reason with
-    | none => simp [h] at this
-    | some r => exact ⟨r, rfl⟩
-  exact ⟨h1, h2, h3, fun as r hr => reason_first_wins _ as r hr,
-    fun hd as => (terminal_stable_after_driver_exit _ as h3 hd).1⟩
+/-- was `close_during_handshake_driver_stuck_witness` (the DTLS task left without a final state and
+`start_dtls` waited forever); it publishes `Closed` now and the driving loop returns -/
+theorem close_during_handshake_driver_now_returns :
+    let t := run (phaseState .webrtc false 0 .dtlsHandshaking)
+      [.callClose .localClose, .closeStep, .closeStep, .dtlsExit, .drvStart]
+    quiescent t = true ∧ terminal t = true ∧ t.drv = .done := by decide
 
 end RtcModel.Theorems.C17
